@@ -2,7 +2,7 @@
    finite inputs (Q-level functions the NanQ model refines), levels / unbiasedness /
    identity / finiteness; part A: aggregators. *)
 From Coq Require Import ZArith QArith Qabs Qround Qminmax List Bool Lia Lqa.
-From FV Require Import Common.ListX Common.CMonoid Common.NanQ Common.QVec Common.WMean
+From FV Require Import Common.ListX Common.CMonoid Common.NanQ Common.KeyPath Common.QVec Common.WMean
   gen.Gen_tree_util gen.Gen_compression Model.C11_Model.
 Import ListNotations.
 
@@ -120,3 +120,39 @@ Proof.
   cbn [bits_run]. rewrite IH, E. rewrite Nat2Z.inj_succ. f_equal; lia.
 Qed.
 Local Close Scope Z_scope.
+
+(* ---------------- prefix-freeness ---------------- *)
+Lemma usq_key_shape t c l : usq_key t c l = repeat 0%nat t ++ 1%nat :: repeat 0%nat c ++ 1%nat :: [l].
+Proof. unfold usq_key, seq_key, usq_state. rewrite <- !app_assoc. reflexivity. Qed.
+
+Lemma shape_prefix_free a c l a' c' l' X :
+  (repeat 0%nat a ++ 1%nat :: repeat 0%nat c ++ 1%nat :: [l]) ++ X = repeat 0%nat a' ++ 1%nat :: repeat 0%nat c' ++ 1%nat :: [l'] ->
+  X = [].
+Proof.
+  rewrite <- app_assoc. cbn [app]. rewrite <- app_assoc. cbn [app]. intros H.
+  apply zeros_one_inj in H. destruct H as [_ H]. apply zeros_one_inj in H. destruct H as [_ H].
+  injection H as _ H. exact H.
+Qed.
+
+(* no key used for drawing is a proper prefix of another one (so no key is both used and split further) *)
+Lemma usq_key_prefix_free t c l t' c' l' X : usq_key t c l ++ X = usq_key t' c' l' -> X = [].
+Proof. rewrite !usq_key_shape. apply shape_prefix_free. Qed.
+Lemma drive_key_prefix_free t c l t' c' l' X : drive_key t c l ++ X = drive_key t' c' l' -> X = [].
+Proof. exact (usq_key_prefix_free t c l t' c' l' X). Qed.
+Lemma rusq_key_prefix_free t c l t' c' l' X : rusq_key t c l ++ X = rusq_key t' c' l' -> X = [].
+Proof. rewrite !rusq_key_shape. apply shape_prefix_free. Qed.
+Lemma rusq_rot_key_prefix_free t l t' l' X : rusq_rot_key t l ++ X = rusq_rot_key t' l' -> X = [].
+Proof.
+  unfold rusq_rot_key, rusq_state. rewrite <- app_assoc. cbn [app]. intros H.
+  change [1%nat; l'] with (1%nat :: [l']) in H. apply zeros_one_inj in H. destruct H as [_ H].
+  injection H as _ H. exact H.
+Qed.
+(* a rotation key is not a prefix of a quantisation key nor conversely *)
+Lemma rusq_rot_quant_prefix_free t l t' c' l' X :
+  rusq_rot_key t l ++ X <> rusq_key t' c' l' /\ rusq_key t' c' l' ++ X <> rusq_rot_key t l.
+Proof.
+  rewrite rusq_key_shape. unfold rusq_rot_key, rusq_state. split; intros H.
+  - rewrite <- app_assoc in H. cbn [app] in H. apply zeros_one_inj in H. lia.
+  - rewrite <- app_assoc in H. cbn [app] in H. change [1%nat; l] with (1%nat :: [l]) in H.
+    apply zeros_one_inj in H. lia.
+Qed.
